@@ -41,4 +41,38 @@ PROPS = {
         "level_text": "Machine-checked Lean 4 theorems (C01_live_le_max and corollaries) over an executable small-step model of the managed pool: for every list of actions without resize/close - any number of tasks, any interleaving of atomic steps, any callback outcome incl. panic/never/cancel, both queue modes, any hooks, any max_size - objects existing or being created never exceed max_size. The model is tied to the current source by replaying, on every run, thousands of controlled-scheduler traces of the real code step by step on the model (projection permits/closed/woken/size/max/idle/out/live/labels) and by a ground-truth monitor on the implementation.",
         "level_note": "Proof is about the hand-written model; the tie to the code is the correspondence run (differential, not exhaustive). Assumes tokio Semaphore as modelled (Sem), SC interleaving of atomic steps, Rust async drop order. Axioms: propext, Classical.choice, Quot.sound only.",
     },
+    "C02": {
+        "title": "No capacity is ever lost and no waiting caller is stranded",
+        "modules": ["DeadpoolVerif.Props.C02"],
+        "theorems": [
+            "DeadpoolVerif.C02_capacity_restored", "DeadpoolVerif.C02_probe_step",
+            "DeadpoolVerif.C02_no_stranded", "DeadpoolVerif.C02_release_wakes_oldest",
+            "DeadpoolVerif.C02_woken_completes", "DeadpoolVerif.C02_no_fault",
+            "DeadpoolVerif.C02_progress",
+            "DeadpoolVerif.run_acct", "DeadpoolVerif.run_norz", "DeadpoolVerif.run_link",
+        ],
+        "projection": BASE + SEM + CNT + ["out", "ev"],
+        "profiles": {"quick": [("noresize", 500), ("cancel-nr", 400), ("faults", 400), ("timeouts-nr", 200)],
+                     "thorough": [("noresize", 8000), ("cancel-nr", 8000), ("faults", 8000), ("timeouts-nr", 4000), ("cancel", 3000)]},
+        "monitor": "C02",
+        "design_ref": "DESIGN.md §6 C02",
+        "level_text": "Machine-checked Lean 4 theorems: after any resize-free history in which every operation finished and every object came back, all max_size tokens are free, no waiter is registered and users = 0 (C02_capacity_restored, from the token-conservation invariant Acct and the waiter-linkage invariant Link, both proved for every reachable state); a blocked, un-woken waiter implies permits = 0 and not closed (C02_no_stranded); a released token goes to the oldest waiter at once and a woken waiter completes at its next poll (C02_release_wakes_oldest, C02_woken_completes); no counter underflows (C02_no_fault); every unfinished operation is enabled or waits for the mutex whose owner is enabled (C02_progress: no deadlock). Tied to the code by the per-step correspondence run (incl. the waker flag of every blocked getter) and by an end-of-history capacity probe through the public API on the real pool.",
+        "level_note": "Proof is about the model. The wake-up itself is tokio's (validated by the flag-waker component `woken`, not proved). Fairness of the scheduler is outside the model: progress is stated as enabledness. Axioms: propext, Classical.choice, Quot.sound only.",
+    },
+    "C11": {
+        "title": "status() is exact at rest and never nonsensical",
+        "modules": ["DeadpoolVerif.Props.C11"],
+        "theorems": [
+            "DeadpoolVerif.C11_exact_at_rest", "DeadpoolVerif.C11_plausible",
+            "DeadpoolVerif.C11_size_le_max_unless_resized",
+            "DeadpoolVerif.run_acct", "DeadpoolVerif.run_norz", "DeadpoolVerif.run_link",
+        ],
+        "projection": BASE + SEM + CNT + ["idle", "out", "live", "ev"],
+        "profiles": {"quick": [("status", 700), ("noresize", 300), ("cancel", 300)],
+                     "thorough": [("status", 10000), ("noresize", 4000), ("cancel", 4000), ("resize", 3000), ("close", 3000)]},
+        "monitor": "C11",
+        "design_ref": "DESIGN.md §6 C11",
+        "level_text": "Machine-checked Lean 4 theorems: in every reachable state of the model (any history incl. failures, cancellations, takes, retains, resizes, close) in which no operation is in progress except callers blocked in get(), the tuple status() computes equals (max_size, idle+out, idle, number of blocked callers) (C11_exact_at_rest); in every reachable state the tuple is plausible: size <= objects existing or being created, available <= size, waiting <= callers inside get(), no counter wrapped, size <= max_size + shrink residue and size <= max_size if never resized (C11_plausible, C11_size_le_max_unless_resized). Tied to the code by the per-step correspondence run (status events are part of the compared event stream) and a ground-truth monitor that recomputes the expected figures from the harness's own object/operation bookkeeping, with quiescent points inserted by the generator.",
+        "level_note": "`users` is read with Relaxed ordering while the slots mutex is held; the model treats status() as one atomic step (per-location coherence of a single counter). max_size ground truth for the monitor = the resize that took the mutex last. Axioms: propext, Classical.choice, Quot.sound only.",
+    },
 }
